@@ -17,8 +17,9 @@ CASES = [dict(dim=d, order=o, cell=c) for d in (1, 2, 3) for o in ORDERS[d] for 
 
 
 def _rows(pts, dim, n):
+    # one entry along the first axis per point (zip(points, weights) pairs them), each with `dim` coordinates (a bare number in 1-D is accepted)
     a = np.array(pts, dtype=object)
-    return a.reshape(n, dim) if a.size == n * dim else None
+    return a.reshape(n, dim) if (a.ndim >= 1 and a.shape[0] == n and a.size == n * dim) else None
 
 
 def _moment(cell, al):
